@@ -277,6 +277,36 @@ def cli_scope(res, pid, rng, tier):
             k = next((i for i, (x, y) in enumerate(zip(la, lb)) if x != y), 0)
             fails.append({"kind": "--preserve-private-addresses does not give the same output as listing the three RFC 1918 networks", "argv_flag": a1, "argv_listing": a2,
                           "status": [s1, s2], "input_line": body.split("\n")[k], "with_flag": la[k] if k < len(la) else None, "with_listing": lb[k] if k < len(lb) else None})
+    # real runs: the private-address switch preserves the three RFC 1918 networks and nothing else (loopback, link-local, benchmark and
+    # documentation addresses are anonymized like any other); the private ones stay
+    sp = ["127.0.0.1", "169.254.1.1", "198.18.0.1", "192.0.2.1", "203.0.113.9", "100.64.0.1", "240.0.0.1"]
+    s1, o1, _ = run_cli(["-a", "-s", "sp", "--preserve-private-addresses", "--preserve-host-bits", "0"],
+                        {"a.cfg": "".join("ip host %s\n" % a for a in sp + ["10.9.8.7", "192.168.1.1"])})
+    res.evaluations += 1
+    lo = (o1.get("a.cfg") or "").split("\n")[:-1]
+    kept = [a for a, l_ in zip(sp, lo) if l_ == "ip host %s" % a]
+    if s1 != "ok" or len(lo) != len(sp) + 2 or len(kept) >= 2 or lo[-2:] != ["ip host 10.9.8.7", "ip host 192.168.1.1"]:
+        fails.append({"kind": "--preserve-private-addresses does not give the same output as listing the three RFC 1918 networks",
+                      "argv": ["-a", "-s", "sp", "--preserve-private-addresses", "--preserve-host-bits", "0"], "status": s1,
+                      "addresses_outside_the_three_networks_left_unchanged": kept, "output": lo})
+    # real runs: every run gets the host bits it was given - two runs in one process with the same salt and lists
+    txt_hb = "ip address 12.34.56.78 255.255.255.0\nipv6 address 2001:db8::1234:5678/64\n"
+    runs_hb = []
+    for hb in (["--preserve-host-bits", "0"], [], ["--preserve-host-bits", "16"], []):
+        st_, o_, _ = run_cli(["-a", "-s", "samesalt"] + hb, {"a.cfg": txt_hb})
+        runs_hb.append((hb, st_, (o_.get("a.cfg") or "")))
+        res.evaluations += 1
+    for hb, st_, o_ in runs_hb:
+        want8 = hb == []
+        l4 = o_.split("\n")[0] if o_ else ""
+        if st_ != "ok" or (want8 and not l4.split(" ")[2:3] == [l4.split(" ")[2]] ) or (want8 and not l4.split(" ")[2].endswith(".78")) \
+                or (hb == ["--preserve-host-bits", "16"] and not l4.split(" ")[2].endswith(".56.78")):
+            fails.append({"kind": "a run does not preserve the number of host bits it was given (default 8)", "argv": ["-a", "-s", "samesalt"] + hb,
+                          "earlier_runs_in_this_process": [r_[0] for r_ in runs_hb], "input": txt_hb, "output": o_, "status": st_})
+            break
+    if runs_hb[1][2] != runs_hb[3][2]:
+        fails.append({"kind": "a run does not preserve the number of host bits it was given (default 8)", "detail": "two runs with the same options differ",
+                      "argv": ["-a", "-s", "samesalt"], "outputs": [runs_hb[1][2], runs_hb[3][2]]})
     # real runs: rejected combinations and the no-option case write nothing
     for argv in (["-u"], ["-u", "-a", "-s", "x"], ["-d", "map"], ["-a", "--preserve-host-bits", "33"], [], ["-u", "-p"], ["-d", "map", "-p", "-u", "-s", "q"]):
         d = tempfile.mkdtemp(prefix="ncverif_")
